@@ -397,27 +397,59 @@ MUTATORS = {"append", "appendleft", "extend", "insert", "pop", "popleft", "remov
 
 def init_only_attrs(trees: List[ast.AST]) -> Dict[str, Set[str]]:
     """Per class: attributes of self that are assigned in __init__ and never re-bound by any
-    other function of the package (under any receiver name): an alias of such an attribute
+    other method of that class or of a class derived from / deriving it (by base name), nor
+    through a receiver other than `self` anywhere in the package: an alias of such an attribute
     denotes the same object for the whole life of the instance."""
-    bound_elsewhere: Set[str] = set()
+    foreign: Set[str] = set()          # stored through a receiver that is not `self`
     in_init: Dict[str, Set[str]] = {}
+    elsewhere: Dict[str, Set[str]] = {}
+    bases: Dict[str, Set[str]] = {}
     for t in trees:
         for c in ast.walk(t):
             if isinstance(c, ast.ClassDef):
+                bases[c.name] = {ast.unparse(b).split("[")[0].split(".")[-1] for b in c.bases}
                 for m in c.body:
                     if isinstance(m, (ast.FunctionDef, ast.AsyncFunctionDef)):
                         for n in ast.walk(m):
                             if isinstance(n, ast.Attribute) and isinstance(n.ctx, (ast.Store, ast.Del)):
-                                if m.name == "__init__" and isinstance(n.value, ast.Name) and n.value.id == "self":
-                                    in_init.setdefault(c.name, set()).add(n.attr)
+                                if isinstance(n.value, ast.Name) and n.value.id == "self":
+                                    (in_init if m.name == "__init__" else elsewhere).setdefault(c.name, set()).add(n.attr)
                                 else:
-                                    bound_elsewhere.add(n.attr)
+                                    foreign.add(n.attr)
         for n in ast.walk(t):
             if isinstance(n, ast.Call) and isinstance(n.func, ast.Name) and n.func.id in ("setattr", "delattr"):
-                bound_elsewhere.add("*")
-    if "*" in bound_elsewhere:
-        return {}
-    return {c: {a for a in attrs if a not in bound_elsewhere} for c, attrs in in_init.items()}
+                return {}
+            if isinstance(n, (ast.FunctionDef, ast.AsyncFunctionDef)):
+                pass
+        # module-level functions storing attributes on objects
+        for st in getattr(t, "body", []):
+            if isinstance(st, (ast.FunctionDef, ast.AsyncFunctionDef)):
+                for n in ast.walk(st):
+                    if isinstance(n, ast.Attribute) and isinstance(n.ctx, (ast.Store, ast.Del)):
+                        foreign.add(n.attr)
+
+    def family(c: str) -> Set[str]:
+        out = {c}
+        changed = True
+        while changed:
+            changed = False
+            for k, bs in bases.items():
+                if k not in out and (bs & out):
+                    out.add(k)
+                    changed = True
+                if k in out:
+                    for b in bs:
+                        if b in bases and b not in out:
+                            out.add(b)
+                            changed = True
+        return out
+
+    res: Dict[str, Set[str]] = {}
+    for c, attrs in in_init.items():
+        fam = family(c)
+        rebound = set().union(*[elsewhere.get(k, set()) for k in fam]) if fam else set()
+        res[c] = {a for a in attrs if a not in rebound and a not in foreign}
+    return res
 
 
 def _pure_value(e: ast.AST, cls_attrs: Set[str], props: Set[str]) -> bool:
@@ -507,9 +539,14 @@ def _propagate_pure_locals(func: ast.AST, props: Set[str], cls_name: Optional[st
                         if any(isinstance(x, ast.Subscript) for x in ast.walk(value)) and any(p >= here for p in mut_pos.get(fv, [])):
                             stale = True
                         for lp in loops:
-                            inside = lp.lineno <= st.lineno <= getattr(lp, "end_lineno", lp.lineno)
-                            if inside and any(lp.lineno <= p[0] <= getattr(lp, "end_lineno", lp.lineno) for p in store_pos.get(fv, [])):
-                                stale = True
+                            lo, hi = lp.lineno, getattr(lp, "end_lineno", lp.lineno)
+                            inside = lo <= st.lineno <= hi
+                            in_loop_stores = [p for p in store_pos.get(fv, []) if lo <= p[0] <= hi]
+                            if inside and in_loop_stores:
+                                # bound earlier in the same iteration and t used only inside this loop: fine
+                                uses_in = all(lo <= n.lineno <= hi for n in ast.walk(func) if isinstance(n, ast.Name) and n.id == name and isinstance(n.ctx, ast.Load))
+                                if not (all(p < here for p in in_loop_stores) and uses_in):
+                                    stale = True
                     uses = [n for n in ast.walk(func) if isinstance(n, ast.Name) and n.id == name and isinstance(n.ctx, ast.Load)]
                     if stale or not uses or any((u.lineno, u.col_offset) < here for u in uses):
                         i += 1
